@@ -266,6 +266,11 @@ static void run_case(vh_ctx *c)
   libsci_verif_tick_hook = NULL;
   drv_ticks_end("iters_per_component_log2", npc);
   libsci_verif_tick_hook = NULL;
+  /* total_expvar is |t_old|^2 / ss.  After two or more iterations t_old is itself the output of a power step and its squared norm
+     is a Rayleigh-type quotient (bound vt[] above).  When the loop stops in its very first iteration t_old is the start column,
+     whose norm is only tied to |t_new| by the stopping rule itself: | |t_old| - |t_new| | <= sqrt(n tol) |t_new|, i.e. a first-order
+     2 sqrt(n tol) on the eigenvalue (seen for two autoscaled one-variable blocks, whose second residual columns are equal) */
+  for (k = 0; k < npc && k < 16; k++) if (g_ticks_comp[k] <= 1) { vt[k] += 2.0 * sqrt((double)n * DOC_CPCACONVERGENCE); vh_obs("components_converged_in_first_iteration", 1); }
   for (b = 0; b < nb; b++) if (!matrix_bitequal(x->m[b], xb->m[b])) { vh_fail(c, "CPCA|input-modified", "CPCA changed block %zu of its input tensor", b); break; }
 
   /* shapes */
